@@ -306,6 +306,7 @@ func Run(c *core.Ctx) {
 	c.Set("rule", "every edge of three exported TLC state graphs is executed on the real adapter: (1) sniffer: streams of 5-6 position-tagged bytes, every source chunking, caller buffers 1..3(4), 1-3 sniffing sessions with arbitrary peek depth, then reads to EOF; (2) websocket transport: every fragmentation into <= 3 text/binary messages incl. empty ones and control messages, read buffers 1..3(4), EOF with or without data, writes of 0..2 bytes; (3) listener.Conn write queue with one writer (3 packets of 3..70000 bytes), every limiter outcome and every flush timing at gate granularity; every walk counts as non-trivial (each covers edges no other walk covered)")
 	c.Assume = append(c.Assume, "the underlying socket returns io.EOF separately from the last data (net.TCPConn behaviour); a source that returns data together with EOF is outside the explored chunkings",
 		"bytes are position-tagged so duplication, loss and reordering are all visible")
+	ListenerStage(c)
 	c.Finish()
 }
 
